@@ -6,7 +6,7 @@
    comma-joined join values are k, in left-file order; right_out o L r = what the nested-loop reading of the property
    statement prescribes for right record r: its pairs (compose l r, left-file order), or nothing under --np, or, when
    it matches nothing / has no key, its unpaired form under --ur. *)
-From Miller Require Import Base.Bytes Base.Record C13.Model C13.Proofs C13.ProofsSorted C13.Order C13.ProofsMerge C13.ProofsKeyless C13.ProofsCompose.
+From Miller Require Import Base.Bytes Base.Record C13.Model C13.Proofs C13.ProofsSorted C13.Order C13.ProofsMerge C13.ProofsKeyless C13.ProofsCompose C13.ProofsOnce.
 From Coq Require Import Sorted.
 From Coq Require Import Permutation.
 
@@ -99,6 +99,40 @@ Theorem C13_sorted_mode_accounts_for_left_records_partial :
     /\ Permutation (lefts o left) (List.concat (map fst steps) ++ final ++ D).
 Proof. exact join_sorted_conserves_left. Qed.
 Print Assumptions C13_sorted_mode_accounts_for_left_records_partial.
+
+(* sorted-input mode (-s), ALL inputs, sorted or NOT: every record is accounted for exactly once.
+   The output is, right record by right record, [the left records flushed as unpaired at that point] followed by
+   EITHER the right record's unpaired form (under --ur) OR its pairs with one whole non-empty bucket (unless --np)
+   -- emit; then the final flush.  The left file is, as a multiset, the disjoint union of everything flushed as unpaired
+   and of the buckets Bs; every bucket of Bs is non-empty and was paired with at least one right record, and every
+   bucket a right record was paired with is in Bs.  Hence no left record is lost, none is flushed twice, none is both
+   paired and flushed; a right record is never both unpaired and paired.  On unsorted input -s pairs fewer records than
+   the default mode ("else not all records will be paired", mlr join --help) -- but this accounting still holds.
+   (Buckets are compared as lists of records: two buckets with identical contents are not told apart.) *)
+Theorem C13_sorted_mode_exactly_once_on_all_inputs :
+  forall o left right, ul o = true ->
+  exists (steps : list (list record * list record)) (final : list record) (Bs : list (list record)),
+    join_sorted o left right = emit_all o steps right ++ map (unpaired_left o) final
+    /\ List.length steps = List.length right
+    /\ Permutation (lefts o left) (List.concat (map fst steps) ++ final ++ List.concat Bs)
+    /\ (forall B, In B Bs -> B <> [] /\ In B (map snd steps))
+    /\ (forall s, In s steps -> snd s <> [] -> In (snd s) Bs).
+Proof. exact join_sorted_exactly_once. Qed.
+Print Assumptions C13_sorted_mode_exactly_once_on_all_inputs.
+
+(* non-vacuity on an UNSORTED input: the left key 1 comes back after key 2; the second run of key 1 is never paired, the
+   default mode would pair it; all 4 left and 3 right records appear exactly once as paired or unpaired *)
+Example C13_exactly_once_unsorted_nonvacuous :
+  let o := mkOpts [B "id"] [B "id"] [B "id"] [] [] None false true true false in
+  let left := [[(B "id", B "1"); (B "l", B "a")]; [(B "id", B "2"); (B "l", B "b")]; [(B "id", B "1"); (B "l", B "c")]; [(B "l", B "d")]] in
+  let right := [[(B "id", B "1"); (B "r", B "p")]; [(B "id", B "2"); (B "r", B "q")]; [(B "id", B "1"); (B "r", B "s")]] in
+  join_sorted o left right
+  = [[(B "id", B "1"); (B "l", B "a"); (B "r", B "p")];
+     [(B "id", B "2"); (B "l", B "b"); (B "r", B "q")];
+     [(B "id", B "1"); (B "r", B "s")];
+     [(B "id", B "1"); (B "l", B "c")]; [(B "l", B "d")]]
+  /\ List.length (join_unsorted o left right) = 6%nat.
+Proof. vm_compute. split; reflexivity. Qed.
 
 (* sorted-input mode (-s) = default mode as multisets of records, on key-sorted inputs, for every flag combination
    (--np/--ul/--ur/--ignore-empty/--lk/--lp/--rp/-l/-r/-j), duplicate keys on both sides, and key-less records ANYWHERE
